@@ -19,6 +19,7 @@ def _classes():
             self.calls.append(("x", idx))
             if ctx is not None:
                 ctx["k"] = idx * 10
+                ctx["k2"] = idx * 10 + 1          # a second key: every ctx.<key> position must read ITS key
             return ("x", idx)
 
         def getitem_class(self, idx, ctx=None):
@@ -75,6 +76,7 @@ def _classes():
 def expected_item(item, i, stack, joint_id):
     if item == "index": return i
     if item == "ctx.k": return i * 10
+    if item == "ctx.k2": return i * 10 + 1
     if item == "probe": return "PROBE"
     if stack == "fused" and item in ("x", "class"):
         return ("fx" if item == "x" else "fc", (item, i), joint_id)
@@ -113,7 +115,7 @@ def check_mode(stack, items, n, return_ctx, rng):
         vals = (out,) if len(items) == 1 else out
         if len(items) > 1 and not isinstance(out, tuple):
             return {"what": "several items not delivered as a tuple", "observed": str(out)[:80]}
-        if len(items) == 1 and return_ctx is False and isinstance(out, tuple) and items[0] in ("index", "ctx.k"):
+        if len(items) == 1 and return_ctx is False and isinstance(out, tuple) and items[0] in ("index", "ctx.k", "ctx.k2"):
             return {"what": "single item wrapped"}
         if len(vals) != len(items):
             return {"what": "wrong number of items", "observed": str(out)[:80]}
@@ -141,10 +143,12 @@ def check_mode(stack, items, n, return_ctx, rng):
                 for q, t in enumerate(items[:p]):
                     if t == "x" or (stack == "fused" and t == "class"):
                         exp_ctx["k"] = ii * 10
+                        exp_ctx["k2"] = ii * 10 + 1
                     if t == "flag" and ii % 2 == 0:
                         exp_ctx["flag"] = ii
                 if fused_both and ("x" in items[:p] or "class" in items[:p]):
                     exp_ctx["k"] = ii * 10
+                    exp_ctx["k2"] = ii * 10 + 1
                 if seen is None or dict(seen) != exp_ctx:
                     return {"what": "the context seen by a loader carries entries of another sample (or misses this sample's)", "idx": i,
                             "expected": str(exp_ctx), "observed": str(seen), "mode": mode}
@@ -212,11 +216,12 @@ def check_torch_wrapper(n):
 def search(limit, seed, max_items=3):
     rng = random.Random(seed)
     n = 0
-    names = ["x", "class", "other", "index", "ctx.k", "flag", "probe"]
+    names = ["x", "class", "other", "index", "ctx.k", "ctx.k2", "flag", "probe"]
     modes = []
     for k in range(1, max_items + 1):
         for items in itertools.product(names, repeat=k):
-            if "ctx.k" in items and ("x" not in items or items.index("x") > items.index("ctx.k")):
+            cpos = [q for q, t in enumerate(items) if t.startswith("ctx.")]
+            if cpos and ("x" not in items or items.index("x") > min(cpos)):
                 continue          # domain: ctx.<key> after the item that records the key
             modes.append(items)
     rng.shuffle(modes)
